@@ -354,7 +354,7 @@ class Case:
         plain = []
         groups = {}
         for s in self.P['sets']:
-            if s['pkg'] != pkg or s.get('grp') == '=inline':
+            if s['pkg'] != pkg or s.get('grp') == '=inline' or (pkg == 'a' and (self.P.get('opts') or {}).get('setsinwire')):
                 continue
             items = [self.item_expr(it, pkg, used) for it in s['items']]
             init = 'wire.NewSet(%s)' % ', '.join(items)
@@ -414,6 +414,11 @@ class Case:
                 items = [self.item_expr(it, 'a', used) for it in inj['items']]
                 decl = {'generic': '%s[X any]', 'method': '(VerifRecv) %s'}.get(inj.get('form', 'func'), '%s') % inj['name']
                 body.append('func %s(%s) %s {\n\tpanic(wire.Build(%s))\n}\n' % (decl, ', '.join(params), r, ', '.join(items)))
+            if fno == 1 and (self.P.get('opts') or {}).get('setsinwire'):
+                # the sets of the injector package are declared here, in the injector file
+                for st in self.P['sets']:
+                    if st['pkg'] == 'a' and st.get('grp') != '=inline':
+                        body.append('var %s = wire.NewSet(%s)\n' % (self.nm(st['name']), ', '.join(self.item_expr(it, 'a', used) for it in st['items'])))
             if (self.P.get('opts') or {}).get('filedecl'):
                 body.append('// helperCount%d is a non-injector declaration of this injector file.\nvar helperCount%d = %d\n' % (fno, fno, fno))
             name = 'wire.go' if fno == 1 else 'wire_%d.go' % fno
